@@ -256,7 +256,7 @@ func (x *Exec) apiDo(op Op) (res *Observed) {
 			return nil // the fall-back for backends that do not paginate is the front end's
 		}
 		prefix := gofakes3.Prefix{}
-		if p := x.Conc.Key(op.Key("prefix")); p != "" {
+		if p := x.Conc.KeyPrefix(op.Key("prefix")); p != "" {
 			prefix.HasPrefix, prefix.Prefix = true, p
 		}
 		if d := op.Key("delim"); d != "" {
